@@ -152,6 +152,9 @@ func cmdCheck(args []string) int {
 	var reports []*FuncReport
 	for _, k := range keys {
 		reports = append(reports, eng.verifyFunc(eng.db.Contracts[k]))
+		for _, m := range contractModes(eng.db.Contracts[k]) {
+			reports = append(reports, eng.verifyFuncMode(eng.db.Contracts[k], m))
+		}
 	}
 	for _, l := range eng.db.Lemmas {
 		if hasProp(l.Props, *prop) && (*only == "" || strings.Contains(l.Name, *only)) {
@@ -194,7 +197,11 @@ func cmdCheck(args []string) int {
 			if j.o.Kind == "vacuity" && tmo > 2 {
 				tmo = 2
 			}
-			j.o.Result = solvePortfolio(file, tmo, true)
+			tmo1 := tmo
+			if j.o.Kind != "vacuity" && j.s.hasOpaque(j.o) && tmo1 > 3 {
+				tmo1 = 3 // first attempt (opaque predicates as atoms) is either quick or hopeless
+			}
+			j.o.Result = solvePortfolio(file, tmo1, true)
 			if j.o.Result.Status != "unsat" && j.o.Kind != "vacuity" && j.s.hasOpaque(j.o) {
 				// second attempt with the definitions of the opaque predicates revealed
 				first := j.o.Result.Secs
@@ -254,7 +261,7 @@ func cmdCheck(args []string) int {
 			}
 			nObl++
 			if *list {
-				fmt.Printf("  %-8s %s\n", o.Result.Status, o.Name)
+				fmt.Printf("  %-8s %6.2fs %-7s %s\n", o.Result.Status, o.Result.Secs, o.Result.Backend, o.Name)
 			}
 			if o.Result.Status == "unsat" {
 				nDis++
